@@ -1,5 +1,6 @@
-# common environment for every /verif command (sourced)
+# common environment for every command of the verification machinery (sourced)
 export GOFLAGS=-mod=mod GOPROXY=off GOSUMDB=off GOTOOLCHAIN=local CARGO_NET_OFFLINE=true PIP_NO_INDEX=1
-export VERIF=/verif
-export BUILD=/verif/.build
-mkdir -p "$BUILD" /verif/evidence /verif/replays
+export VERIF_ROOT="${VERIF_ROOT:-$(cd "$(dirname "${BASH_SOURCE[0]}")/.." && pwd)}"
+export VERIF="$VERIF_ROOT"
+export BUILD="$VERIF_ROOT/.build"
+mkdir -p "$BUILD" "$VERIF_ROOT/evidence" "$VERIF_ROOT/replays"
